@@ -49,9 +49,26 @@ impl XmlConverter {
         escaped
     }
 
+    /// A document can only hold the characters XML allows. The writer copies
+    /// any other, a control character for one, into the output as it is and
+    /// no parser reads the result.
+    fn check_chars(s: &str) -> std::result::Result<&str, Box<dyn Error>> {
+        let allowed = |c: char| {
+            matches!(c, '\t' | '\n' | '\r' | '\u{20}'..='\u{D7FF}' | '\u{E000}'..='\u{FFFD}' | '\u{10000}'..='\u{10FFFF}')
+        };
+        match s.chars().find(|c| !allowed(*c)) {
+            Some(c) => Err(BuildError::new(
+                format!("XML can not hold the character U+{:04X}", c as u32),
+                ErrorType::TypeFail,
+            )
+            .to_boxed()),
+            None => Ok(s),
+        }
+    }
+
     fn get_str_val(v: &Val) -> std::result::Result<&str, Box<dyn Error>> {
         if let Val::Str(s) = v {
-            Ok(s)
+            Self::check_chars(s)
         } else {
             Err(BuildError::new("Not a String value", ErrorType::TypeFail).to_boxed())
         }
@@ -177,7 +194,7 @@ impl XmlConverter {
                 .to_boxed());
             }
         } else if let Val::Str(s) = v {
-            w.write(XmlEvent::characters(s.as_ref()))?;
+            w.write(XmlEvent::characters(Self::check_chars(s.as_ref())?))?;
         } else {
             return Err(BuildError::new(
                 "XML nodes must be a Tuple or a string",
